@@ -39,6 +39,18 @@ ACTIONS = [
     ('zremrangebyrank', [[b'zremrangebyrank', K, b'0', b'-1']]), ('msetnx-refused', [[b'set', b'o9', b'1'], [b'msetnx', K, b'x', b'o9', b'y']]),
     ('hincrby', [[b'hincrby', K, b'n', b'1']]), ('setbit', [[b'setbit', K, b'1', b'1']]), ('getrange', [[b'getrange', K, b'0', b'-1']]),
     ('zunionstore', [[b'zadd', b'z9', b'1', b'm'], [b'zunionstore', K, b'1', b'z9']]), ('brpoplpush', [[b'rpush', b'l8', b'e'], [b'brpoplpush', b'l8', K, b'0']]),
+    # every command that takes something out of / edits a collection in place, on a collection that keeps other elements
+    ('blpop', [[b'blpop', K, b'0']]), ('brpop', [[b'brpop', K, b'0']]), ('blpop-second-key', [[b'blpop', b'nolist', K, b'0']]),
+    ('brpoplpush-from', [[b'brpoplpush', K, b'l7', b'0']]), ('rpop', [[b'rpop', K]]), ('lpop-count', [[b'lpop', K, b'1']]), ('rpoplpush-from', [[b'rpoplpush', K, b'l7']]),
+    ('lmove-from', [[b'lmove', K, b'l7', b'right', b'left']]), ('linsert', [[b'linsert', K, b'before', b'b', b'x']]), ('linsert-nopivot', [[b'linsert', K, b'before', b'zz', b'x']]),
+    ('lrem', [[b'lrem', K, b'0', b'a']]), ('lrem-missing', [[b'lrem', K, b'0', b'zz']]), ('lset', [[b'lset', K, b'0', b'x']]), ('lset-same', [[b'lset', K, b'0', b'a']]),
+    ('ltrim-part', [[b'ltrim', K, b'1', b'-1']]), ('ltrim-all', [[b'ltrim', K, b'0', b'-1']]), ('rpushx', [[b'rpushx', K, b'x']]),
+    ('srem', [[b'srem', K, b'a']]), ('spop-count', [[b'spop', K, b'1']]), ('smove-from', [[b'smove', K, b't7', b'a']]), ('hdel', [[b'hdel', K, b'f']]),
+    ('hsetnx-existing', [[b'hsetnx', K, b'f', b'w']]), ('hincrbyfloat', [[b'hincrbyfloat', K, b'n', b'1.5']]), ('hset-same', [[b'hset', K, b'f', b'v']]),
+    ('zincrby', [[b'zincrby', K, b'1', b'a']]), ('zincrby-zero', [[b'zincrby', K, b'0', b'a']]), ('zremrangebyscore-none', [[b'zremrangebyscore', K, b'5', b'6']]),
+    ('zremrangebylex', [[b'zremrangebylex', K, b'-', b'+']]), ('zadd-xx-ch', [[b'zadd', K, b'xx', b'ch', b'3', b'a']]), ('zadd-nx-existing', [[b'zadd', K, b'nx', b'3', b'a']]),
+    ('incrbyfloat', [[b'incrbyfloat', K, b'1.5']]), ('decrby', [[b'decrby', K, b'2']]), ('setrange', [[b'setrange', K, b'1', b'zz']]), ('setex', [[b'setex', K, b'100', b'orig']]),
+    ('pexpireat-past', [[b'pexpireat', K, b'1']]), ('expire-same', [[b'expire', K, b'1000']]), ('mset', [[b'mset', K, b'orig', b'o9', b'y']]), ('sadd-two', [[b'sadd', K, b'a', b'c']]),
 ]
 # cross-database interference, run from the OTHER database
 CROSS = [
